@@ -5,6 +5,7 @@ import (
 	"fmt"
 	"os"
 	"sort"
+	"time"
 
 	"verif/internal/core"
 	"verif/internal/props"
@@ -52,6 +53,7 @@ func main() {
 		os.Exit(2)
 	}
 	r := core.NewRun(id, tier, c.Budget(tier))
+	r.StartStallGuard(c.Budget(tier) + 15*time.Minute)
 	if c.Level != "" {
 		r.Level = c.Level
 	}
